@@ -1,11 +1,11 @@
-//! Conformance harness binary `vh-core`: one module per TLA+ specification (see /verif/spec).
-mod statevector;
+//! Conformance harness binary `vh-pipeline`: one module per TLA+ specification (see /verif/spec).
+mod pipeline;
 
 fn main() {
     let args = vh_common::Args::parse();
     vh_common::quiet_panics();
     match args.module.as_str() {
-        "statevector" => statevector::run(&args),
+        "pipeline" => pipeline::run(&args),
         _ => vh_common::unknown(&args),
     }
 }
